@@ -407,6 +407,10 @@ class MTr:
                 for other in list(args) + [k.value for k in e.keywords]:
                     if not self.opaque_ok(other, env):
                         self.bad(e, "minimize argument with effects")
+                kwm = {k.arg: k.value for k in e.keywords}
+                if dotted(kwm.get("bounds")) != "self._bounds" or dotted(kwm.get("callback")) != "self._history_callback":
+                    # C01 / C02: the local optimiser is always handed the level's box and the history callback
+                    self.bad(e, "scipy.optimize.minimize must be called with bounds=self._bounds and callback=self._history_callback")
                 x = self.fresh("n")
                 pre.append(f"{x} <- p_local_search ;;")
                 return V(x, "optres")
